@@ -2,6 +2,7 @@
 # check.sh <ID> <quick|thorough> [extra mc flags]
 # Rebuilds the harness from /repo's working tree, then runs the property's check.
 . "$(dirname "$0")/env.sh"
+mkdir -p "$VERIF_ROOT/.work" "$VERIF_ROOT/bin" "$VERIF_ROOT/evidence" "$VERIF_ROOT/replays"
 id="$1"; tier="${2:-${VERIF_TIER:-quick}}"; shift; shift
 if ! "$VERIF_ROOT/scripts/build.sh" inst >"$VERIF_ROOT/.work/build-$id.log" 2>&1; then
   # A tree that does not build cannot be checked; this is not a property violation.
